@@ -32,6 +32,8 @@ pub mod prelude;
 #[cfg(test)]
 pub mod test_util;
 mod util;
+#[cfg(feature = "verif-hooks")]
+pub mod verif;
 pub mod welcomes;
 
 use self::callback::{MdkCallback, RollbackInfo};
